@@ -467,6 +467,8 @@ def mime_table_obligations(ctx, rep, rule):
             continue
         seen.add(g)
         for n in ast.walk(g.node):
+            if isinstance(n, ast.Name) and isinstance(n.ctx, ast.Load) and n.id == f.name and g.module.functions.get(n.id) is f:
+                called = True  # named in the table of start-up steps that initialize() runs
             if isinstance(n, ast.Call):
                 t = ctx.resolver.resolve(n, g, None)
                 if t.kind == "repo" and f in t.funcs:
@@ -490,7 +492,7 @@ def check(ctx, rep):
     rep.rule("R04b", "Gopher+ length: transforming handlers leave size unset; generated menus use the unknown-length marker", floor=5)
     rep.rule("R04c", "HTTP HEAD: no body-producing call reachable; header writes independent of the method", floor=1)
     rep.rule("R04e", "WAP text conversion splits the document at LF only (a binary readline()/split(b'\\n')), so lines map one to one", floor=1)
-    rep.rule("R04d", "advertised MIME type: entry type (tables/config/constants) through the protocol's own adjust function", floor=4)
+    rep.rule("R04d", "advertised MIME type: entry type (tables/config/constants) through the protocol's own adjust function", floor=2)
     copy_loop_obligations(ctx, rep, "R04a")
     length_obligations(ctx, rep, "R04b")
 
@@ -516,7 +518,11 @@ def check(ctx, rep):
                 if n.func.attr == "write" and (dotted(n.func.value) or "").endswith("wfile") and n.args:
                     a = n.args[0]
                     text = None
-                    if isinstance(a, ast.Constant) and isinstance(a.value, bytes):
+                    av = ((ev.extra or {}).get("args") or [None])[0] if isinstance(ev.extra, dict) else None
+                    if av is not None and av.kind == "const" and isinstance(av.value, (bytes, str)):
+                        # the value written is known (a constant of the module or class, an element of a constant tuple)
+                        text = av.value.decode("latin-1") if isinstance(av.value, bytes) else av.value
+                    elif isinstance(a, ast.Constant) and isinstance(a.value, bytes):
                         text = a.value.decode("latin-1")
                     elif isinstance(a, ast.Call) and isinstance(a.func, ast.Attribute) and a.func.attr == "encode":
                         v = a.func.value
